@@ -9,7 +9,9 @@
 //  5. optional: a patch (a seeded/mutant change) applied to copies of the files
 //     it touches, so that checks can be run against a modified tree without
 //     modifying /repo;
-//  6. optional source rewrites (see rewrite.go).
+//  6. optional source rewrites (see rewrite.go); the "fakec" rewrite replaces
+//     step 1's stub VM by the real Go sources of package contract with cgo's
+//     "C" bound to a pure-Go fake (used by the C20 binary only).
 package main
 
 import (
@@ -32,7 +34,7 @@ var (
 	verif  = flag.String("verif", "/verif", "verif root")
 	out    = flag.String("out", "/verif/build", "build directory")
 	mutant = flag.String("mutant", "", "optional patch file applied to copies of repo files")
-	rw     = flag.String("rewrite", "", "comma separated rewrites: vsync:<pkgdir>,vorder:<pkgdir>,...")
+	rw     = flag.String("rewrite", "", "comma separated rewrites: vsync:<pkgdir>,vorder:<pkgdir>,vrange:<pkgdir>=<expr>,fakec:<pkgdir>=<support dir>")
 )
 
 func die(f string, a ...interface{}) {
